@@ -1,4 +1,5 @@
 //! focasim — deterministic simulation checks for caio/foca. See /verif/DESIGN.md.
+mod chaos;
 mod checks;
 mod codec;
 mod frame;
